@@ -1,5 +1,5 @@
-// Driver for PolygonArea (C08): replays TLC-chosen edit histories on the lattice sphere for the four
-// back ends and logs the object's observable state after every step; `record` mode logs residuals of
+// Driver for PolygonArea (C08): replays TLC-chosen edit histories on the lattice sphere for the five
+// back ends (Geodesic, GeodesicExact, Geodesic(exact), Rhumb, Rhumb(exact)) and logs the object's observable state after every step; `record` mode logs residuals of
 // the history laws on seeded random polygons over WGS84 / oblate / prolate ellipsoids.
 #include "trace.hpp"
 #include <GeographicLib/PolygonArea.hpp>
@@ -22,7 +22,11 @@ struct IPoly {
   virtual unsigned TestPoint(double, double, bool, bool, double&, double&) const = 0;
   virtual unsigned TestEdge(double, double, bool, bool, double&, double&) const = 0;
   virtual unsigned Num() const = 0; virtual void Cur(double&, double&) const = 0; virtual bool Polyline() const = 0;
+  virtual void Inv(double, double, double, double, double&, double&) const = 0;   // the back end's own inverse problem: s12, azi1
 };
+static void inv_of(const Geodesic& g, double a1, double o1, double a2, double o2, double& s, double& az) { double z; g.Inverse(a1, o1, a2, o2, s, az, z); }
+static void inv_of(const GeodesicExact& g, double a1, double o1, double a2, double o2, double& s, double& az) { double z; g.Inverse(a1, o1, a2, o2, s, az, z); }
+static void inv_of(const Rhumb& g, double a1, double o1, double a2, double o2, double& s, double& az) { g.Inverse(a1, o1, a2, o2, s, az); }
 template<class P, class G> struct PolyT : IPoly {
   G g; P p;
   PolyT(const G& gg, bool polyline) : g(gg), p(g, polyline) {}
@@ -32,13 +36,15 @@ template<class P, class G> struct PolyT : IPoly {
   unsigned TestEdge(double a, double d, bool r, bool s, double& pe, double& ar) const { return p.TestEdge(a, d, r, s, pe, ar); }
   unsigned Num() const { return p.NumberPoints(); } void Cur(double& a, double& b) const { p.CurrentPoint(a, b); }
   bool Polyline() const { return p.Polyline(); }
+  void Inv(double a1, double o1, double a2, double o2, double& s12, double& az) const { inv_of(g, a1, o1, a2, o2, s12, az); }
 };
 static IPoly* make(int backend, double a, double f, bool polyline) {
   switch (backend) {
   case 0: return new PolyT<PolygonArea, Geodesic>(Geodesic(a, f), polyline);
   case 1: return new PolyT<PolygonAreaExact, GeodesicExact>(GeodesicExact(a, f), polyline);
   case 2: return new PolyT<PolygonArea, Geodesic>(Geodesic(a, f, true), polyline);
-  default: return new PolyT<PolygonAreaRhumb, Rhumb>(Rhumb(a, f), polyline);
+  case 3: return new PolyT<PolygonAreaRhumb, Rhumb>(Rhumb(a, f), polyline);
+  default: return new PolyT<PolygonAreaRhumb, Rhumb>(Rhumb(a, f, true), polyline);   // 4: the exact option of the rhumb back end
   }
 }
 
@@ -47,7 +53,7 @@ static const double RA = 180.0 / 3.14159265358979323846264338327950288;   // sph
 static const long double PIL = 3.14159265358979323846264338327950288L;
 static const double UNT = 2000000002.0;        // marker: output argument left untouched
 struct TV { const char* kind; long long lon; };
-static const TV TESTV[6] = {{"N", 30}, {"S", -45}, {"E", 0}, {"E", 180}, {"E", -91}, {"E", 200}};
+static const TV TESTV[7] = {{"N", 30}, {"S", -45}, {"E", 0}, {"E", 180}, {"E", -91}, {"E", 200}, {"S", 720}};
 static const long long TESTE[3][2] = {{1, 90}, {-1, 181}, {1, 359}};
 static const bool FLAGS[4][2] = {{false, false}, {false, true}, {true, false}, {true, true}};
 static const bool TFLAGS[2][2] = {{false, false}, {true, true}};
@@ -108,13 +114,89 @@ static void area_of(int backend, double a, double f, const vector<Pt>& v, bool r
 static long long q4(long double x) { return vt::q1(fabsl(x), 1e-4L); }     // 1e-4 m^2
 static long long qn(long double x) { return vt::q1(fabsl(x), 1e-9L); }     // nm
 
+
+// ------------------------------------------------------------------ textbook references (long double)
+// Used by the absolute rhumb law `ra`.  Documentation (Rhumb.hpp, doc "The area under a rhumb line"): the area under a rhumb
+// line is S12 = int c^2 sin(xi) dlambda with lambda linear in the isometric latitude psi, i.e. S12 = lon12 * <c^2 sin xi>
+// (mean over psi), and c^2 sin(xi) = b^2/2 * [sin(phi)/(1 - e^2 sin^2 phi) + atanh(e sin phi)/e] (the area of the ellipsoid
+// between the equator and latitude phi per radian of longitude).  The length of a rhumb line is
+// hypot(psi12, lon12) * (m12/psi12) with m the meridian distance.  All three integrals over phi
+//   m12 = int a(1-e^2)/(1-e^2 sin^2 phi)^(3/2) dphi,  psi12 = int (1-e^2)/((1-e^2 sin^2 phi) cos phi) dphi,
+//   int [c^2 sin xi] dpsi
+// are evaluated by 16-point Gauss-Legendre quadrature on panels of at most 2.5 degrees (|phi| <= 85 degrees).
+typedef long double LD;
+static const int NGL = 16;
+static LD GLX[NGL], GLW[NGL];
+static void gl_init() {
+  for (int i = 0; i < NGL; ++i) {
+    LD x = cosl(PIL * (i + 0.75L) / (NGL + 0.5L)), dp = 1;
+    for (int it = 0; it < 100; ++it) {
+      LD p0 = 1, p1 = x;
+      for (int k = 2; k <= NGL; ++k) { LD p2 = ((2 * k - 1) * x * p1 - (k - 1) * p0) / k; p0 = p1; p1 = p2; }
+      dp = NGL * (x * p1 - p0) / (x * x - 1);
+      LD dx = p1 / dp; x -= dx;
+      if (fabsl(dx) < 1e-21L) break;
+    }
+    LD p0 = 1, p1 = x;
+    for (int k = 2; k <= NGL; ++k) { LD p2 = ((2 * k - 1) * x * p1 - (k - 1) * p0) / k; p0 = p1; p1 = p2; }
+    dp = NGL * (x * p1 - p0) / (x * x - 1);
+    GLX[i] = x; GLW[i] = 2 / ((1 - x * x) * dp * dp);
+  }
+}
+struct Ell {
+  LD a, e2, b;
+  Ell(double aa, double f) : a(aa), e2((LD) f * (2 - (LD) f)), b((LD) aa * (1 - (LD) f)) {}
+  LD band(LD sphi) const {                       // c^2 sin(xi): ellipsoid area between the equator and phi per radian of longitude
+    LD u = sphi;
+    if (e2 > 0) { LD e = sqrtl(e2); u = atanhl(e * sphi) / e; }
+    else if (e2 < 0) { LD e = sqrtl(-e2); u = atanl(e * sphi) / e; }
+    return b * b / 2 * (sphi / (1 - e2 * sphi * sphi) + u);
+  }
+  // one rhumb leg between latitudes p1, p2 (degrees) with longitude difference l12 (degrees): length and area under it
+  void leg(LD p1, LD p2, LD l12, LD& len, LD& S) const {
+    LD lam = l12 * PIL / 180;
+    if (p1 == p2) { LD sp = sinl(p1 * PIL / 180), cp = cosl(p1 * PIL / 180);
+      len = fabsl(lam) * a * cp / sqrtl(1 - e2 * sp * sp); S = lam * band(sp); return; }
+    int np = int(ceill(fabsl(p2 - p1) / 2.5L)); if (np < 1) np = 1;
+    LD h = (p2 - p1) / np * PIL / 180, im = 0, ip = 0, ia = 0;
+    for (int k = 0; k < np; ++k) {
+      LD c0 = p1 * PIL / 180 + h * (k + 0.5L);
+      for (int i = 0; i < NGL; ++i) {
+        LD ph = c0 + h / 2 * GLX[i], sp = sinl(ph), cp = cosl(ph), w = 1 - e2 * sp * sp;
+        LD dm = a * (1 - e2) / (w * sqrtl(w)), dpsi = (1 - e2) / (w * cp);
+        im += GLW[i] * dm; ip += GLW[i] * dpsi; ia += GLW[i] * dpsi * band(sp);
+      }
+    }
+    im *= h / 2; ip *= h / 2; ia *= h / 2;       // m12, psi12, int c^2 sin(xi) dpsi (all carry the sign of p2 - p1)
+    len = hypotl(ip, lam) * (im / ip); S = lam * (ia / ip);
+  }
+  // point on the ellipsoid (height 0) in cartesian coordinates
+  void xyz(LD lat, LD lon, LD r[3]) const {
+    LD sp = sinl(lat * PIL / 180), cp = cosl(lat * PIL / 180), N = a / sqrtl(1 - e2 * sp * sp);
+    if (fabsl(lat) == 90) cp = 0;
+    r[0] = N * cp * cosl(lon * PIL / 180); r[1] = N * cp * sinl(lon * PIL / 180); r[2] = N * (1 - e2) * sp;
+  }
+  LD chord(LD la1, LD lo1, LD la2, LD lo2) const { LD p[3], q[3]; xyz(la1, lo1, p); xyz(la2, lo2, q);
+    return sqrtl((p[0] - q[0]) * (p[0] - q[0]) + (p[1] - q[1]) * (p[1] - q[1]) + (p[2] - q[2]) * (p[2] - q[2])); }
+};
+
+// smallest |latitude| reached by the sides of a polygon (micro-degrees, rounded down; 0 if a side crosses the equator): input
+// class of the known finding "pro-exact-eq" of C09 (Rhumb(a, f < 0, exact = true) near the equator), used as a guard by the spec
+static long long eqdist(const vector<Pt>& v) {
+  double m = 90; int n = int(v.size());
+  for (int i = 0; i < n; ++i) { m = min(m, fabs(v[i].lat)); if (v[i].lat * v[(i + 1) % n].lat < 0) m = 0; }
+  return (long long) floor(m * 1e6);
+}
+
 static void record(uint64_t seed, long long n) {
   vt::Rng g(seed);
+  vt::Rng g2(seed ^ 0x5DEECE66DULL);        // separate stream for the laws ev / ra (the polygons of the older laws stay as they were)
+  gl_init();
   const double fs[] = {0, 1 / 298.257223563, -1 / 298.257223563, 1 / 150.0, -1 / 150.0, 0.01};
   for (long long it = 0; it < n; ++it) {
     double a = g.coin() ? 6378137.0 : 6.4e6, f = fs[g.range(0, 5)];
     if (g.range(0, 3) == 0) { a = 6378137.0; f = 1 / 298.257223563; }
-    int backend = int(g.range(0, 3)); if (backend == 3 && fabs(f) > 0.011) backend = 0;
+    int backend = int(g.range(0, 4)); if (backend == 3 && fabs(f) > 0.011) backend = 0;
     int nv = int(g.range(3, g.coin() ? 8 : 40));
     vector<Pt> v;
     int shape = int(g.range(0, 5));
@@ -135,6 +217,7 @@ static void record(uint64_t seed, long long n) {
     double P0, A0, Ps, As;
     area_of(backend, a, f, v, false, false, P0, A0); area_of(backend, a, f, v, false, true, Ps, As);
     Rec r; r.str("e", "rl").i("backend", backend).i("nv", nv).i("shape", shape).i("fq", vt::q1(f, 1e-6L));
+    r.i("eq", eqdist(v));
     // rotation of the start vertex
     { vector<Pt> w = v; rotate(w.begin(), w.begin() + g.range(1, nv - 1), w.end()); double p, ar; area_of(backend, a, f, w, false, true, p, ar);
       r.li("rot", {q4(remainderl((long double)ar - As, area0)), qn(p - P0)}); }
@@ -158,18 +241,81 @@ static void record(uint64_t seed, long long n) {
       double pt, at; unsigned nn = p->TestPoint(v[nv - 1].lat, v[nv - 1].lon, false, true, pt, at);
       double pc, ac; unsigned n1 = p->Compute(false, true, pc, ac);
       double azi = g.uni(-180, 180), s = g.uni(1, 2e6);
-      if (backend == 3) {   // a rhumb course must not reach a pole (longitude and area are then NaN by definition)
+      if (backend >= 3) {   // a rhumb course must not reach a pole (longitude and area are then NaN by definition)
         double room = (90 - fabs(v[nv - 2].lat)) * 1.0e5; if (s * fabs(cos(azi * PIL / 180)) > 0.8 * room) azi = g.coin() ? 90 : -90; }
       double pe = 0, ae = 0, pf = 0, af = 0;
       // (a rhumb course leaving a pole has no defined longitude: not part of the property)
-      if (!(backend == 3 && fabs(v[nv - 2].lat) == 90)) {
+      if (!(backend >= 3 && fabs(v[nv - 2].lat) == 90)) {
         p->TestEdge(azi, s, false, true, pe, ae);
         p->AddEdge(azi, s); p->Compute(false, true, pf, af); }
       r.li("test", {q4(remainderl((long double)at - As, area0)), qn(pt - P0), (long long)(nn == (unsigned) nv && n1 == (unsigned)(nv - 1)),
                     q4(remainderl((long double)ae - af, area0)), qn(pe - pf)}); }
-    // the other geodesic back end gives the same polygon
-    { int b2 = backend == 3 ? 3 : (backend + 1) % 3; double p, ar; area_of(b2, a, f, v, false, true, p, ar);
+    // the other geodesic back end gives the same polygon; the two rhumb back ends (series / exact option) likewise
+    { int b2 = backend == 3 ? 4 : backend == 4 ? 3 : (backend + 1) % 3; double p, ar; area_of(b2, a, f, v, false, true, p, ar);
       r.li("xb", {q4(remainderl((long double)ar - As, area0)), qn(p - P0)}); }
+    // ev - "edge versus vertex": the same polygon with a random subset of its vertices entered as edges (AddEdge with the
+    // azimuth and length of the back end's own inverse problem from the current point to the vertex).  Logged: area and
+    // perimeter against the all-AddPoint polygon; the largest distance (3-D chord) between CurrentPoint after such an edge and
+    // the vertex it stands for; whether an AddEdge issued on the still empty object left it empty (NumberPoints 0, CurrentPoint
+    // NaN) and the final count is right; the number of vertices entered as edges; and, FROM THE INPUTS, the longest side of the
+    // polygon as an arc on the sphere (micro-degrees) and the largest |latitude| - the trace spec uses them as the conditioning
+    // guard (moving a vertex by d changes the area by about d R tan(arc/2) per adjacent side: unbounded for nearly antipodal
+    // vertices; for rhumb lines the factor grows like sec(latitude)).
+    // (A rhumb course into or out of a pole has no defined longitude: rhumb legs touching a pole are entered as points.)
+    { Ell E(a, f); unique_ptr<IPoly> p(make(backend, a, f, false));
+      p->AddEdge(g2.uni(-180, 180), g2.uni(1, 2e6)); bool noop = p->Num() == 0; { double la, lo; p->Cur(la, lo); noop = noop && std::isnan(la) && std::isnan(lo); }
+      p->AddPoint(v[0].lat, v[0].lon);
+      long long ne = 0; LD dmax = 0, arcmax = 0, latmax = 0;
+      for (int i = 0; i < nv; ++i) { const Pt& p1 = v[i]; const Pt& p2 = v[(i + 1) % nv];
+        LD f1 = p1.lat * PIL / 180, f2 = p2.lat * PIL / 180, dl = ((LD) p2.lon - (LD) p1.lon) * PIL / 180;
+        LD hv = sinl((f2 - f1) / 2) * sinl((f2 - f1) / 2) + cosl(f1) * cosl(f2) * sinl(dl / 2) * sinl(dl / 2);
+        LD arc = 2 * asinl(sqrtl(fminl(1.0L, hv))) * 180 / PIL; arcmax = max(arcmax, arc); latmax = max(latmax, fabsl((LD) p1.lat)); }
+      for (int i = 1; i < nv; ++i) {
+        bool edge = g2.range(0, 2) != 0;
+        if (backend >= 3 && (fabs(v[i - 1].lat) == 90 || fabs(v[i].lat) == 90)) edge = false;
+        if (!edge) { p->AddPoint(v[i].lat, v[i].lon); continue; }
+        double la0, lo0, s12, azi; p->Cur(la0, lo0); p->Inv(la0, lo0, v[i].lat, v[i].lon, s12, azi);
+        p->AddEdge(azi, s12); ++ne;
+        double la1, lo1; p->Cur(la1, lo1); LD d = E.chord(la1, lo1, v[i].lat, v[i].lon); if (!(d <= dmax)) dmax = d;
+      }
+      double pe = 0, ae = 0; unsigned nn = p->Compute(false, true, pe, ae);
+      r.li("ev", {q4(remainderl((long double)ae - As, area0)), qn(pe - P0), qn(dmax), (long long)(noop && nn == (unsigned) nv), ne,
+                  (long long) ceill(arcmax * 1e6L), (long long) ceill(latmax * 1e6L)}); }
+    // ra - absolute reference for the rhumb back ends: a polygon with all vertices within |lat| <= 85 and within a longitude
+    // band narrower than 180 degrees (so that it cannot enclose a pole and every shortest rhumb leg stays inside the band),
+    // some vertices sharing a latitude (legs along parallels) or a longitude (meridian legs), graticule cells among them,
+    // random longitudes written with an extra multiple of 360.  Reference: area = - sum of the areas under the legs,
+    // perimeter = sum of the leg lengths, from the textbook integrals above.
+    if (backend >= 3) {
+      Ell E(a, f);
+      int kind = int(g2.range(0, 3)), m = int(g2.range(3, 10));
+      double c0 = g2.uni(-180, 180), hw = g2.coin() ? g2.uni(0.01, 5) : g2.uni(5, 80);
+      double la = g2.uni(-85, 85), lb = g2.uni(-85, 85); if (g2.coin()) { lb = la + g2.uni(-1, 1) * pow(10.0, g2.uni(-6, 0.5)); lb = max(-85.0, min(85.0, lb)); }
+      vector<Pt> w;                       // unwrapped longitudes
+      if (kind == 0) {                    // graticule cell (two parallels, two meridians) with intermediate vertices
+        double lo1 = c0 - hw, lo2 = c0 + hw, s1 = min(la, lb), s2 = max(la, lb); int k1 = int(g2.range(0, 3)), k2 = int(g2.range(0, 3));
+        for (int i = 0; i <= k1; ++i) w.push_back({s1, lo1 + (lo2 - lo1) * i / (k1 + 1)});
+        w.push_back({s1, lo2}); w.push_back({s2, lo2});
+        for (int i = 1; i <= k2; ++i) w.push_back({s2, lo2 + (lo1 - lo2) * i / (k2 + 1)});
+        w.push_back({s2, lo1});
+        if (g2.coin()) reverse(w.begin(), w.end());
+      } else {
+        for (int i = 0; i < m; ++i) {
+          double lat = g2.coin() ? g2.uni(min(la, lb), max(la, lb)) : g2.uni(-85, 85), lon = c0 + g2.uni(-hw, hw);
+          if (kind == 2 && i > 0 && g2.range(0, 2) == 0) lat = w[i - 1].lat;                 // leg along a parallel
+          else if (kind == 2 && i > 0 && g2.range(0, 2) == 0) lon = w[i - 1].lon;            // meridian leg
+          else if (kind == 3 && i > 0 && g2.coin()) lat = max(-85.0, min(85.0, w[i - 1].lat + g2.uni(-1, 1) * pow(10.0, g2.uni(-12, -3))));  // nearly along a parallel
+          w.push_back({lat, lon});
+        }
+      }
+      for (auto& q : w) q.lon = nearbyint(q.lon * 1073741824.0) / 1073741824.0;     // multiples of 2^-30 degree, so that adding 360 k is exact
+      int mv = int(w.size()); LD per = 0, sum = 0, lomin = w[0].lon, lomax = w[0].lon, amax = 0;
+      for (int i = 0; i < mv; ++i) { const Pt& p1 = w[i]; const Pt& p2 = w[(i + 1) % mv]; LD len, S;
+        E.leg(p1.lat, p2.lat, (LD) p2.lon - (LD) p1.lon, len, S); per += len; sum += S;
+        lomin = min(lomin, (LD) p1.lon); lomax = max(lomax, (LD) p1.lon); amax = max(amax, fabsl((LD) p1.lat)); }
+      vector<Pt> u = w; for (auto& q : u) if (g2.range(0, 3) == 0) q.lon += 360.0 * double(g2.range(-2, 2));   // exact: longitudes are multiples of 2^-30
+      double pr, ar; area_of(backend, a, f, u, false, true, pr, ar);
+      r.li("ra", {q4(remainderl((long double) ar + sum, area0)), qn((long double) pr - per), mv, (long long) ceill((lomax - lomin) * 1e6L), (long long) ceill(amax * 1e6L), kind, eqdist(w)}); }
     // polyline: perimeter only, area argument untouched
     { unique_ptr<IPoly> p(make(backend, a, f, true)); for (auto& q : v) p->AddPoint(q.lat, q.lon); double pp = 0, ar = UNT; p->Compute(false, true, pp, ar);
       vector<Pt> w = v; double pc, ac; area_of(backend, a, f, w, false, true, pc, ac);
